@@ -101,7 +101,7 @@ def stop_count(Q, crit, k0=0):
     return out
 
 
-def judge_run(cls, sysname, t0, f0, S, stop, op, solver, res, traj=None, it0=0, cfl=CFL, as_array=False):
+def judge_run(cls, sysname, t0, f0, S, stop, op, solver, res, traj=None, it0=0, cfl=CFL, as_array=False, stop_obj=None):
     """run one solve/restart and evaluate the property; returns (violations, returned list)"""
     name = cls.__name__
     gear = space.is_multistep(cls)
@@ -117,9 +117,12 @@ def judge_run(cls, sysname, t0, f0, S, stop, op, solver, res, traj=None, it0=0, 
     bad = []
     fcall = f0.copy()
     before = ([d.copy() for d in fcall.data], fcall.time, fcall.it)
+    # the dictionary object handed to the code may be one the caller reuses for many calls (stop_obj); the oracle works on a pristine copy
+    given = stop_obj if stop_obj is not None else (dict(stop) if stop is not None else None)
+    ts_given = np.array(S, float) if as_array else list(S)
     try:
         with np.errstate(all="ignore"), core.time_limit(HORIZON):
-            out = getattr(solver, op)(fcall, cfl, np.array(S, float) if as_array else list(S), stop=stop)
+            out = getattr(solver, op)(fcall, cfl, ts_given, stop=given)
     except core.CallTimeout as e:
         return [("non-termination", "%s did not return within its horizon (a problem of at most 5 iterations): the stop criteria were never met" % op)], None
     except Exception as e:      # the driver must not raise on a valid request
@@ -128,6 +131,10 @@ def judge_run(cls, sysname, t0, f0, S, stop, op, solver, res, traj=None, it0=0, 
         res.transitions += 1
         res.traces += 1
     snaps = list(out.solutions) if hasattr(out, "solutions") else list(out)
+    if given is not None and given != stop:
+        bad.append(("caller-arguments-modified", "the stop dictionary passed to %s was changed from %r to %r" % (op, stop, given)))
+    if list(np.asarray(ts_given, float)) != [float(x) for x in S]:
+        bad.append(("caller-arguments-modified", "the save-time list passed to %s was changed from %r to %r" % (op, list(S), list(ts_given))))
     N = solver.nit()
     if N not in Ns:
         bad.append(("iteration-count", "nit()=%d, the first step meeting a stop criterion is %s (stop %r)" % (N, sorted(Ns), crit)))
@@ -255,6 +262,7 @@ def shard_solve(arg):
     traj = reftraj(cls, sysname, f0, 14, cfl)
     vals, unit = letters_of(sysname, t0, TICKS, cfl)
     stops = stops_of(vals, unit, t0)
+    shared = stops_of(vals, unit, t0)      # the dictionary objects actually handed to solve, reused for every history of the shard
     for combo in enum_lists(tier):
         S = [vals[i] for i in combo]
         for si, stop in enumerate(stops):
@@ -265,7 +273,9 @@ def shard_solve(arg):
             if inside:
                 res.nontrivial += 1
             solver = cls(m, disc)
-            bad, snaps = judge_run(cls, sysname, t0, f0, S, stop, "solve", solver, res, traj, cfl=cfl, as_array=as_array)
+            bad, snaps = judge_run(cls, sysname, t0, f0, S, stop, "solve", solver, res, traj, cfl=cfl, as_array=as_array, stop_obj=shared[si])
+            if shared[si] != stop:
+                shared[si] = dict(stop) if stop is not None else None       # reported once; later histories start from a clean dictionary again
             key = (iname, sysname, t0, tuple(combo), si)
             if snaps is not None:
                 res.states.add(hash((key[0], key[1], tuple((g.time, g.it, tuple(d.tobytes() for d in g.data)) for g in snaps), solver.nit())))
